@@ -232,7 +232,7 @@ class ZWorld(object):
       return PARENT in t and not self.zk._children(PARENT)
     if op[0] == 'create_parent':
       return PARENT not in t
-    if op[0] == 'read':
+    if op[0] in ('read', 'iter1'):
       return self.ss is not None
     return True
 
@@ -248,6 +248,13 @@ class ZWorld(object):
       zk.delete(PARENT)
     elif op[0] == 'create_parent':
       zk.create(PARENT, b'')
+    elif op[0] == 'iter1':
+      # a consumer starts iterating over the server set, takes one member and keeps the (unfinished) iterator around
+      def it1():
+        it = iter(self.ss)
+        self.kept_iterators = getattr(self, 'kept_iterators', []) + [it]
+        next(it, None)
+      gevent.spawn(it1)
     elif op[0] == 'read':
       def rd():
         present_before = set(zk._children(PARENT)) if PARENT in zk.tree else set()
@@ -337,6 +344,8 @@ def scenarios(tier):
      {'initial': [M0, M1], 'script': [['read'], ['delete', M0], ['create', M2], ['read'], ['delete', M1]]}),
     ('a member restarts: its node is deleted and a new node with the same data appears',
      {'initial': [M0, M1], 'script': [['delete', M0], ['create', M10], ['delete', M1], ['create', M2]]}),
+    ('a consumer keeps a partly consumed iterator over the server set',
+     {'initial': [M0, M1], 'script': [['iter1'], ['create', M2], ['delete', M0], ['create', M0], ['delete', M1]]}),
     ('second reader lists members concurrently', {'initial': [M0], 'script': [['read'], ['create', M1], ['delete', M0], ['read'], ['create', M0]]}),
   ]
   if tier == 'thorough':
